@@ -140,6 +140,15 @@ UNIT_S = {"week": 7 * 86400, "day": 86400, "hour": 3600, "minute": 60, "second":
 def pair_case(draw):
     z = draw(st.sampled_from(["UTC", "UTC", "Europe/Paris", "America/New_York", "Asia/Kolkata", "Australia/Lord_Howe"]))
     u1 = draw(S.uni(-10**15, 3 * 10**15))
+    tr = T.transitions(z)
+    if tr and draw(st.integers(0, 2)) == 0:
+        # a pair that straddles an offset change by hours (sub-day spans across midnight are decomposed differently from longer ones)
+        t = tr[draw(st.integers(0, len(tr) - 1))][0] * US
+        u1 = S.clamp_u(t - draw(S.uni(0, 2 * 86400 * US)))
+        span = draw(S.uni(0, 3 * 86400 * US))
+        if draw(st.booleans()):
+            u1, span = S.clamp_u(u1 + span), -span
+        return {"zone": z, "u1": u1, "span": span, "absolute": draw(st.booleans()), "now": draw(st.booleans())}
     k = draw(st.integers(0, 6))
     span = draw([S.uni(0, 70 * US), S.uni(0, 2 * 3600 * US), S.uni(0, 3 * 86400 * US), S.uni(0, 40 * 86400 * US),
                  S.uni(0, 800 * 86400 * US), S.uni(0, 40000 * 86400 * US),
@@ -240,7 +249,7 @@ class InWords(Sub):
     rule = "Duration/Interval.in_words() for every subset of components and either sign x every locale: rebuilt from locale unit templates; non-trivial: non-English locale or >= 3 components"
 
     def strategy(self, ctx):
-        return st.fixed_dictionaries({"args": dur_args, "locale": st.sampled_from(LOCALES), "sep": st.sampled_from([" ", ", ", "-"]),
+        return st.fixed_dictionaries({"args": st.one_of(dur_args, dur_args, dur_args, S.ym_cancel_args()), "locale": st.sampled_from(LOCALES), "sep": st.sampled_from([" ", ", ", "-"]),
                                       "interval": st.booleans(), "u": S.uni(0, 3 * 10**15)})
 
     def check(self, case, ctx):
